@@ -45,6 +45,8 @@ func main() {
 		os.Exit(cmdReplay(os.Args[2:]))
 	case "variants":
 		os.Exit(cmdVariants(os.Args[2:]))
+	case "debug-values":
+		debugValues(os.Args[2:])
 	case "debug-reads":
 		debugReads()
 	case "list":
